@@ -501,6 +501,32 @@ def body(ctx: H.BaseCtx):
                         ctx.expect_model(r, M.mp_array([M.MP.const(1)], ()), "%s with exponent %d and a zero coefficient" % (rname, e))
                 else:
                     ctx.expect_model(r, exp, "%s with exponent %d" % (rname, e))
+        elif op == "reject-chain":
+            # exponents that only arise as results: a power of a power (of a product, of a substituted monomial) whose exponent
+            # a*n has no storage key or is past 32 bits -- the operation raises, or stores exactly q**(a*n); never another monomial
+            if not ctx.symbolic and H.NATIVE_RUN_INDEX == 0:
+                q0, q1 = numpoly.variable(2)
+                mono = lambda i, e: numpoly.polynomial({tuple(e if j == i else 0 for j in range(2)): 1}, names=("q0", "q1"))  # (built directly: q0**e is e products)
+                for a, n_ in case["pairs"]:
+                    chains = {
+                        "(q0**a)**n": lambda: mono(0, a) ** n_,
+                        "numpoly.power(q0**a, n)": lambda: numpoly.power(mono(0, a), n_),
+                        "(q0**a * q1**3)**n": lambda: (mono(0, a) * q1 ** 3) ** n_,
+                        "(q0**n)(q0=q1**a)": lambda: mono(0, n_)(q0=mono(1, a)),
+                        "(2*q0**a)**n": lambda: (2.0 * mono(0, a)) ** n_,
+                    }
+                    for cname, f in chains.items():
+                        try:
+                            r = f()
+                        except Exception:
+                            continue  # refusing is allowed
+                        tot = a * n_
+                        if not isinstance(r, numpoly.ndpoly):
+                            ctx.fail("key", "%s with a=%d, n=%d (a*n = %d) returns the plain value %s" % (cname, a, n_, tot, numpy.asarray(r).tolist()))
+                            continue
+                        got = sorted(tuple(int(v) for v in row) for row, c in zip(r.exponents.tolist(), r.coefficients) if numpy.any(numpy.asarray(c) != 0))
+                        if not got or max(max(g) for g in got) != tot:
+                            ctx.fail("key", "%s with a=%d, n=%d (a*n = %d) returns the exponents %s" % (cname, a, n_, tot, got))
         elif op == "special":
             # native only: coefficients that are complex with tiny / purely imaginary parts, on ladder exponents: a term stays a term
             if not ctx.symbolic:
@@ -621,8 +647,9 @@ def gen_cases(tier: str, seed: int) -> List[Dict]:
         add("mul", P("a", ("q0", "q1"), [[a, 1], [0, b]]), P("b", ("q0", "q1"), [[b, 0], [1, a]]))
     for a, b in pairs[: (12 if quick else 60)]:
         # (raw operands: a cleaned all-zero operand would drop names, and an output polynomial over other names is a caller's error)
-        add("mul-out", dict(P("a", ("q0",), [[a], [0]]), mode="raw"), dict(P("b", ("q0",), [[b], [1]]), mode="raw"))
-        add("mul-out", dict(P("a", ("q0", "q1"), [[a, 1], [0, 2]]), mode="raw"), dict(P("b", ("q0", "q1"), [[b, 0]]), mode="raw"))
+        raw = lambda sp: {k: v for k, v in dict(sp, mode="raw").items() if k != "pre"}  # (as constructed: the output polynomial is sized for these terms)
+        add("mul-out", raw(P("a", ("q0",), [[a], [0]])), raw(P("b", ("q0",), [[b], [1]])))
+        add("mul-out", raw(P("a", ("q0", "q1"), [[a, 1], [0, 2]])), raw(P("b", ("q0", "q1"), [[b, 0]])))
     for e in lad:
         add("raw-view", P("a", ("q0", "q1"), [[e, 0], [1, e], [0, 0]], rng.choice([(), (2,)])))
         add("pickle", P("a", ("q0", "q2"), [[e, 1], [0, e]]))
@@ -634,7 +661,8 @@ def gen_cases(tier: str, seed: int) -> List[Dict]:
             if e * k <= 60000 and (not quick or rng.random() < 0.6):
                 add("pow", P("a", ("q0",), [[e], [0]] if e * k < 400 else [[e]]), k=k)
     for e in (-1, -60, 0xD800 - off0, 0xDFFF - off0, 0x110000 - off0, 2 ** 31, 2 ** 32, 2 ** 32 + 5, 2 ** 32 - 1):
-        add("reject", P("a", ("q0",), [[1]]), e=e)
+        add("reject", {k: v for k, v in P("a", ("q0",), [[1]]).items() if k != "pre"}, e=e)  # (the body reads the operand's only stored coefficient)
+    add("reject-chain", {k: v for k, v in P("a", ("q0",), [[1]]).items() if k != "pre"}, native_only=True, pairs=[(50000, 85900), (65536, 65536), (65536, 65537), (40000, 107375), (300000, 14317), (1000000, 4295), (2 ** 20, 2 ** 12)])
     # packing boundaries: exponent rows whose rank as one machine word (sum e_i * base**i, base = largest exponent + 1) reaches
     # 2**32 or 2**64 exactly -- unit vectors in the leading indeterminates next to the largest exponent in the last one
     for maxexp, nn in ((255, 4), (255, 8), (65535, 2), (65535, 3), (65535, 4), (15, 8), (15, 16), (3, 16), (3, 32), (1, 32), (1, 64)):
